@@ -7,6 +7,9 @@ import Proofs.Machine.HunkRowsShape
 import Proofs.Machine.CommitBlocksEx
 import Proofs.Machine.CommitMetaSource
 import Proofs.Machine.CommitBlocksExHH
+import Proofs.Machine.NoPendingEx
+import Proofs.Machine.CombinedHeadersEx
+import Proofs.Machine.PlainHeadersEx
 import Proofs.Headers.Paths
 import Proofs.Headers.HunkHeader
 /-!
@@ -901,5 +904,135 @@ example : (∀ k ∈ logHH, k.WF) ∧
     shown (hhRowsOfLog cfgLabelled [] logHH) = [("§ src/x.rs:1: fn f() ", 13), ("§ src/x.rs:90: fn g() ", 17), ("§ y:1: ", 40)] ∧
     agreesHH cfgLabelled [] logHH = true ∧ agreesHH { commitStyle := { isRaw := true } } [sHunksDangling] logHH = true :=
   ⟨logHH_wf, logHH_rows, logHH_run.1, logHH_run.2⟩
+
+-- no file header pending ⇒ no file-header row, in any state (T22) -------------------------------------------------
+
+/-- **`no_pending_header_no_file_row`** (whole step, `Proofs/Machine/NoPending.lean`): for every configuration (also
+`--color-only`, raw / omitted / decorated file styles), every machine state outside a merge-conflict region — header states,
+pending `@@` headers, hunk states of unified, combined and plain diffs, commit blocks, submodule logs, blame, grep, unknown — and
+every line that is not a header-naming line (`notNamingb`: begins with none of `diff `, `new file mode ` / `deleted file mode `,
+`--- ` / `rename from ` / `copy from `, `+++ ` / `rename to ` / `copy to `, `old mode `, `new mode `, `Only in `, `Binary files `,
+`Submodule `; `@@` lines, commit lines, hunk lines and everything else are allowed): if no file header is owed (`NPend`:
+`modeInfo = []` and `handledPair = currentPair`, the two fields `handle_pending_line_with_diff_name` reads), one iteration of
+the `consume` loop writes **no file-header row**, whichever of the eighteen handlers claims the line, and nothing is owed
+afterwards. Proved once per handler and lifted through `chain` and `step`. Each hypothesis is needed (examples below); inside a
+conflict region rows come out of buffers the timeline does not account for (excluded, as in `step_rq`). -/
+theorem no_pending_header_no_file_row {cfg : Cfg} {m m' : M} {l : L} (e : step cfg m l = .ok m')
+    (hl : notNamingb l = true) (hp : NPend m) (hs : isMergeConflict m.st = false) :
+    fileTL m' = fileTL m ∧ NPend m' :=
+  step_nf e (notNaming_of_b hl) hp hs
+
+/-- … and over any run of such lines none of which opens a conflict region (no line begins `++<<<<<<<`): the body of any
+hunk of a unified, combined or plain diff, commit messages, arbitrary text — no file-header row, nothing owed afterwards. -/
+theorem no_pending_header_no_file_row_run {cfg : Cfg} (ls : List L) {m m' : M} (e : runFrom cfg m ls = .ok m')
+    (hl : ∀ l ∈ ls, notNamingb l = true ∧ startsWith l.text Markers.mcBegin = false) (hp : NPend m)
+    (hs : isMergeConflict m.st = false) (g : Good m) :
+    fileTL m' = fileTL m ∧ NPend m' ∧ isMergeConflict m'.st = false :=
+  let r := runFrom_nf ls e (fun l h => ⟨notNaming_of_b (hl l h).1, (hl l h).2⟩) hp hs g
+  ⟨r.1, r.2.1, r.2.2.1⟩
+
+open Machine.NoPendingEx in
+/-- the hypotheses are met inside a combined hunk (`ccHead`: `diff --cc`, `index`, `---`, `+++`, `@@@`, two hunk lines), inside a
+plain `diff -u` hunk, at the start; a hunk line, a further `@@@` line, a commit line, text add no file row there (`added` =
+(hypotheses on the machine hold, number of file rows the line adds), evaluated on the model's run, `decide +kernel`) -/
+example : added {} ccHead (Machine.CommitBlocksEx.mkL " +c") = some (true, 0) ∧
+    added {} ccHead (Machine.CommitBlocksEx.mkC "commit 1234567") = some (true, 0) ∧
+    added {} plainHead (Machine.CommitBlocksEx.mkL "+B") = some (true, 0) :=
+  ⟨met.1, met.2.2.2.2.1, met.2.2.2.2.2.2.1⟩
+
+open Machine.NoPendingEx in
+/-- `NPend` is needed: after a mode-only section a commit line (not a header-naming line) writes the owed header -/
+example : added {} modeOnly (Machine.CommitBlocksEx.mkC "commit 1234567") = some (false, 1) ∧
+    notNamingb (Machine.CommitBlocksEx.mkC "commit 1234567") = true := npend_needed
+
+open Machine.NoPendingEx in
+/-- the line hypothesis is needed: with nothing owed a `Submodule ` line writes a header of its own, and under `--color-only`
+so does a `--- ` line -/
+example : added {} [] (Machine.CommitBlocksEx.mkL "Submodule sub 1111111..2222222:") = some (true, 1) ∧
+    added { colorOnly := true } [] (Machine.CommitBlocksEx.mkL "--- a/x") = some (true, 1) :=
+  ⟨line_hypothesis_needed.1, line_hypothesis_needed.2.2.2.1⟩
+
+-- combined-diff sections in the whole-run header theorem (T22) --------------------------------------------------
+
+/-- **`one_file_header_per_section_combined`** (whole runs, unbounded; `Proofs/Machine/CombinedHeaders.lean`, `CombinedHeaders2.lean`):
+for every `FHC` configuration and every input made of combined-diff sections and commit blocks in any order (`CItem`: the shape of
+`git diff` during a merge, `git show <merge>`, `git log -p --cc`) — a section (`CSec`) being the `diff --cc x` / `diff --combined x`
+line, any number of index-like lines (`index a,b..c`, `mode a,b..c`) and `new file mode m` / `deleted file mode a,b` lines, the
+`--- a/x` and `+++ b/x` lines, and then the hunks: `@@@ … @@@` lines and hunk lines, none of which begins with a header-naming
+literal or opens a conflict region (`isQuietLine`; a `--- y` hunk line of a combined diff stands behind its marker columns) —: if the
+run succeeds, the file-header rows of delta's output are exactly `rowsOfCItems cfg 0 items`: one per section, in order, written at
+the section's `+++ ` line (index of the `diff --cc` line + number of index lines + 2), showing the description of the two names
+that section's own `--- ` / `+++ ` lines carry; none for a commit block. The header steps are those of `FileHeaders2.lean` re-proved
+for a header state of any diff type (`DiffHeader(Combined(Unknown, No))` here); the hunks are covered by
+`no_pending_header_no_file_row` (any state: pending `@@@` header, `HunkZero/Minus/Plus(Combined(..))`). Hypotheses: `FHC`
+(otherwise no row of kind `file`), `CSec.WF` — decidable (`CSec.wfb`); a body line beginning `--- ` / `+++ ` / `diff ` is the start of
+something else (`line_hypothesis_needed` above), a conflict region is excluded (rows out of buffers, C01's theorems). -/
+theorem one_file_header_per_section_combined {cfg : Cfg} (hc : FHC cfg) (items : List CItem) (w : ∀ i ∈ items, i.WF)
+    {m : M} (e : run cfg (linesOfCItems items) = .ok m) :
+    m.out.filter (fun r => r.kind == .file) = rowsOfCItems cfg 0 items :=
+  run_one_file_row_per_section_combined hc items w e
+
+/-- … so the number of file headers is the number of sections -/
+theorem file_header_count_combined {cfg : Cfg} (hc : FHC cfg) (items : List CItem) (w : ∀ i ∈ items, i.WF)
+    {m : M} (e : run cfg (linesOfCItems items) = .ok m) :
+    (m.out.filter (fun r => r.kind == .file)).length =
+      (items.filter CItem.isSec).length := by
+  rw [one_file_header_per_section_combined hc items w e, rowsOfCItems_length]
+
+/-- step level: the `+++ ` line of a section in a header state of any diff type writes exactly that section's row, after which
+nothing is owed; the `diff --cc` line, met with nothing owed, writes none -/
+theorem combined_plus_line_writes_the_header {cfg : Cfg} (hc : FHC cfg) {dt : DiffType} {m : M} {l : L} (h : HdrC dt m)
+    (hl : isPlusLine l = true) :
+    ∃ m', step cfg m l = .ok m' ∧ QG m' ∧ m'.n = m.n + 1 ∧
+      fileTL m' = fileTL m ++ [headerRow cfg m.minusFile m.minusEvent l m.n] :=
+  plus_step_c hc h hl
+
+theorem combined_diff_line_writes_no_header {cfg : Cfg} (hc : FHC cfg) {m : M} {l : L} (h : QC m) (hl : isCcLine l = true) :
+    ∃ m', step cfg m l = .ok m' ∧ HdrC (.combined .unknown false) m' ∧ fileTL m' = fileTL m ∧ m'.n = m.n + 1 :=
+  cc_line_step hc h hl
+
+open Machine.CombinedHeadersEx Machine.CommitBlocksEx in
+/-- the hypotheses are met by a concrete `git show`-like stream of two merge commits (38 lines: commit blocks with an indented
+`--- a/x` message line; a section modified in both parents with a `mode a,b..c` line, two `@@@` hunks and a ` +--- not a header`
+hunk line; a file added in the merge (`new file mode`, `--- /dev/null`); a file deleted (`diff --combined`, `deleted file mode a,b`,
+`+++ /dev/null`)), the rows are the expected ones, and the model's run agrees — also under a raw commit style with a boxed file
+style, and without commit blocks (`Proofs/Machine/CombinedHeadersEx.lean`, `decide +kernel`) -/
+example : (∀ i ∈ mergeShow, i.WF) ∧
+    shown (rowsOfCItems {} 0 mergeShow) = [("src/x.rs", 11), ("added: new.txt", 25), ("removed: old.txt", 35)] ∧
+    agreesC {} mergeShow = true ∧ agreesC {} [.sec ccAdded, .sec ccModified] = true :=
+  ⟨mergeShow_wf, mergeShow_rows, mergeShow_run.1, mergeShow_run.2.2⟩
+
+-- plain `diff -u`: hunk lines that look like header lines (T22, step level only) -----------------------------------
+
+/- Full statement aimed at, NOT proved as a whole-run theorem (`one_file_header_per_section_plain`): for every `FHC`
+configuration and every plain `diff -u` / `diff -ru` multi-file input the reference reading `Plain.plainNext` accepts (sections
+`--- old` / `+++ new` / hunks whose `@@` lines announce the true number of old-file lines, `diff -u …` command lines), the
+file-header rows of the output are exactly one per `--- ` / `+++ ` pair, in order, written at the `+++ ` line and naming the
+two paths of that pair, and none for a `--- x` / `+++ x` line inside a hunk. Proved below: the second half, per step, for every
+state of the simulation. Missing: the `--- ` / `+++ ` header steps with the source `DiffUnified` (the lemmas of
+`Proofs/Machine/CombinedHeaders.lean` with `comparing = true` and `handledPair := none` at the `--- ` line) and the composition. -/
+
+/-- **`one_file_header_per_section_plain_partial`** (`Proofs/Machine/PlainHeaders.lean`): in a plain `diff -u` run, for every
+configuration (any file style, also `--color-only`), every machine that stands where the reference reading stands (`Plain.Sim s m`:
+source = plain diff, `m.counter` = number of old-file lines the current hunk still expects, unified hunk state inside hunks — the
+invariant `BodyPlain.lean` maintains over every accepted input) and every line the reading takes as a **hunk line** — a
+removed line `-- x`, i.e. the input line `--- x`, while old-file lines are outstanding; an added line `++ x`, i.e. `+++ x`; any
+`-` / `+` / blank-column / `\` line —: the step writes **no file-header row**, whatever header may be pending, and leaves the mode
+information and the handled / current pair alone (so the header bookkeeping of the section is not disturbed either). The
+counter is what makes it true: every handler before `handle_hunk_line` declines the line (`chain_body`: `three_dashes_expected`
+is false while the counter is positive). -/
+theorem one_file_header_per_section_plain_partial {cfg : Cfg} {s s' : Plain.PS} {m m' : M} {l : L} (hs : Plain.Sim s m)
+    (hn : Plain.plainNext s l = some (s', true)) (e : step cfg m l = .ok m') :
+    fileTL m' = fileTL m ∧ m'.modeInfo = m.modeInfo ∧ m'.handledPair = m.handledPair ∧ m'.currentPair = m.currentPair :=
+  Plain.step_hunk_line_no_file_row hs hn e
+
+open Machine.PlainHeadersEx Machine.NoPendingEx Machine.Plain in
+/-- the hypotheses are met on the model's run (`---`, `+++`, `@@ -1,2 +1,2 @@`, `-a`: the reading stands at `hunk 1`, the
+machine simulates it); there `--- x` and `+++ x` are hunk lines and add no file row; one old-file line later the same `--- `
+text starts the next section (still no row) and its `+++ ` line adds exactly one (`decide +kernel` in `PlainHeadersEx.lean`) -/
+example : plainAfter .top inHunk = some (.hunk 1) ∧ simAfter inHunk = true ∧
+    plainNext (.hunk 1) (Machine.CommitBlocksEx.mkL "--- x") = some (.hunk 0, true) ∧
+    added {} inHunk (Machine.CommitBlocksEx.mkL "--- x") = some (true, 0) :=
+  ⟨dashes_in_hunk.1, dashes_in_hunk.2.1, dashes_in_hunk.2.2.1, dashes_in_hunk.2.2.2.1⟩
 
 end C14
